@@ -78,16 +78,18 @@ Lemma do_tick_unfold e adv :
   do_tick e adv =
   let e0 := with_clock e (clock e + adv)%Z in
   if is (pstate e0) SRunning then
-    fold_left (fun ee t => tick_rules t ee (t_timeouts (tk ee t)))
-      (sort_by (fun t => t_start (tk e0 t)) (filter (fun t => negb (Nat.eqb (length (t_timeouts (tk e0 t))) 0)) (seq 0 (length (tasks e0))))) e0
+    persist (fold_left (fun ee t => tick_rules t ee (t_timeouts (tk ee t)))
+      (sort_by (fun t => t_start (tk e0 t)) (filter (fun t => negb (Nat.eqb (length (t_timeouts (tk e0 t))) 0)) (seq 0 (length (tasks e0))))) e0)
   else e0.
 Proof. reflexivity. Qed.
+Lemma tk_persist e t : tk (persist e) t = tk e t. Proof. reflexivity. Qed.
+Lemma st_persist e t : st (persist e) t = st e t. Proof. reflexivity. Qed.
 
 (* firing a rule does not by itself close (or otherwise change the state of) any task *)
 Lemma tick_keeps_states e adv t : st (do_tick e adv) t = st e t.
 Proof.
   rewrite do_tick_unfold. cbv zeta. set (e0 := with_clock e (clock e + adv)%Z).
-  destruct (is (pstate e0) SRunning); [|reflexivity].
+  destruct (is (pstate e0) SRunning); [|reflexivity]. rewrite st_persist.
   assert (H : forall l ee, stable e0 ee -> stable e0 (fold_left (fun ee t => tick_rules t ee (t_timeouts (tk ee t))) l ee)).
   { induction l as [|x l IH]; intros ee Hs; simpl; auto. apply IH. eapply stable_trans; [exact Hs | apply stable_tick_rules]. }
   match goal with |- st (fold_left _ ?l e0) t = _ => destruct (H l e0 (stable_refl e0)) as (_ & _ & _ & Hst) end.
@@ -125,7 +127,7 @@ Lemma due_rules_fire e adv t on limit :
 Proof.
   intros Hp Ht Hopen Hr Hlim. rewrite do_tick_unfold. cbv zeta. set (e0 := with_clock e (clock e + adv)%Z).
   assert (Ep : is (pstate e0) SRunning = true) by (unfold e0; cbn [pstate with_clock]; rewrite Hp; reflexivity).
-  rewrite Ep.
+  rewrite Ep. rewrite tk_persist.
   match goal with |- context [fold_left ?g ?l e0] => set (gg := g); set (ll := l) end.
   assert (Hin : In t ll).
   { unfold ll. apply In_sort_by'. apply filter_In. split; [apply in_seq; unfold e0, ntasks in *; cbn [tasks with_clock]; lia|].
